@@ -122,7 +122,15 @@ class Revision(UserString):
         return self.data >= other
 
 
+_NO_REVISION = Revision("")
+
+
 def ver_cmp(ver1: str, rev1: str, ver2: str, rev2: str) -> int:
+    # a missing revision is revision 0; cmp() would sort None below -r0
+    if rev1 is None:
+        rev1 = _NO_REVISION
+    if rev2 is None:
+        rev2 = _NO_REVISION
     # If the versions are the same, comparing revisions will suffice.
     if ver1 == ver2:
         # revisions are equal if 0 or None (versionless cpv)
